@@ -316,7 +316,48 @@ def c_reduce_large(ctx, args):
     return None
 
 
-CHECKS = {'reduce_large': c_reduce_large, 'torch_expr': c_torch_expr, 'expr': c_expr, 'trace': c_trace, 'qutip': c_qutip, 'linear': c_linear}
+def c_state_arith(ctx, args):
+    """a stabilizer state used in arithmetic stands for its density matrix: -rho, c * rho, rho / c, rho + A, A + rho, rho - A, rho @ A are the dense matrix operations (N <= 3)"""
+    be, t, a, k = args
+    n = len(t[0]) // 2
+    if be == 'np':
+        M = NP
+    else:
+        import vlib.impl_torch as M
+    from vlib import states as S_
+    rho = S_.rho(t)
+    A = D.op(*a)
+    st = M.STATE(t)
+    P = M.P(a)
+    c = [2, -1, 0.5, 1j, 1 - 1j][k % 5]
+    cases = [('neg', lambda: -st, -rho), ('rmul', lambda: c * st, c * rho), ('div', lambda: st / c, rho / c), ('add', lambda: st + P, rho + A),
+             ('radd', lambda: c + st, c * np.eye(2 ** n) + rho),        # (Pauli + state is decided by Pauli.__add__, which reads the state as the LIST of its tableau rows: outside the property)
+ ('sub', lambda: st - P, rho - A), ('matmul', lambda: st @ P, rho @ A)]
+    snap0 = M.oST(st)
+    for name, f, want in cases:
+        try:
+            r = f()
+        except (NotImplementedError, TypeError, AttributeError, RuntimeError) as e:
+            if be == 'torch':
+                ctx.res.count('torch_state_arith_unsupported_' + name)
+                continue                      # the port does not implement every combination
+            return {'kind': 'oracle', 'where': 'np:state %s raised %s' % (name, type(e).__name__), 'observed': str(e)[:120], 'expected': 'the matrix operation', 'tags': ['state_arith', name]}
+        r = r.as_polynomial() if hasattr(r, 'as_polynomial') and not hasattr(r, 'cs') else r
+        if not hasattr(r, 'cs'):
+            if be == 'torch':
+                continue
+            return {'kind': 'oracle', 'where': 'np:state %s does not return a polynomial' % name, 'observed': type(r).__name__, 'expected': 'PauliPolynomial'}
+        got = np.zeros((2 ** n, 2 ** n), dtype=complex)
+        for g, ph, cc in zip(r.gs, r.ps, r.cs):
+            got = got + complex(cc) * D.op([int(v) for v in g], int(round(float(ph))) % 4)
+        if not np.allclose(got, want, atol=1e-5 if be == 'torch' else 1e-9):
+            return {'kind': 'oracle', 'where': '%s:state %s is not the matrix operation on its density matrix' % (be, name), 'observed': 'terms of the result', 'expected': 'dense', 'tags': ['state_arith', name, be]}
+        if M.oST(st) != snap0:
+            return {'kind': 'oracle', 'where': '%s:state %s modified the state' % (be, name), 'observed': M.oST(st), 'expected': snap0, 'tags': ['state_arith', name, be]}
+    return None
+
+
+CHECKS = {'state_arith': c_state_arith, 'reduce_large': c_reduce_large, 'torch_expr': c_torch_expr, 'expr': c_expr, 'trace': c_trace, 'qutip': c_qutip, 'linear': c_linear}
 
 COEFS = [1, -1, 2, -2, 3, 0.5, -0.5, 0.25, 1j, -1j, 2j, 1 + 1j, 1 - 1j, -1 + 2j, 0.5 + 0.5j, 3 - 1j, -0.75j]
 DIVS = [1, -1, 2, -2, 4, 1j, -1j, 2j, 1 + 1j, 1 - 1j, 0.5]
@@ -418,6 +459,9 @@ def run(ctx):
         mask = None if k == N else gen.rmask(rng, N, k)[0]
         o = rleaf(rng, N, ['poly'])
         do(ctx, 'linear', [N, o, gen.rpauli(rng, k, herm=True), gen.rmap(rng, ctx.model, k), mask], nontrivial=('l', it))
+    for it in range(int(40 * B)):
+        n = rng.randint(1, 3)
+        do(ctx, 'state_arith', [rng.choice(['np', 'np', 'torch']), gen.rtableau(rng, ctx.model, n), gen.rpauli(rng, n), it], nontrivial=('sa', it))
     # the torch port's polynomial arithmetic (what it implements of it)
     for it in range(int(150 * B)):
         n = rng.randint(1, 3)
